@@ -507,7 +507,10 @@ def _g_clock_shift(ctx, r, rng):
         return
     x, z, f = arr(x), arr(z), arr(f)
     w = np.exp(2j * np.pi / d)
-    ok(ctx, "clock_shift", close(z @ x, w * x @ z, 1e-9) or close(x @ z, w * z @ x, 1e-9), "weyl-relation", (d,))
+    # documented matrices: X|j> = |j+1 mod d> (Sigma_{1,d} of the docstring), Z = diag(1, w, ..., w^{d-1})
+    ok(ctx, "clock_shift", all(close(x @ np.eye(d)[j], np.eye(d)[(j + 1) % d]) for j in range(d)), "shift-is-documented-matrix", (d,))
+    ok(ctx, "clock_shift", close(z, np.diag([w ** k for k in range(d)]), 1e-9), "clock-is-documented-matrix", (d,))
+    ok(ctx, "clock_shift", close(z @ x, w * x @ z, 1e-9), "weyl-relation", (d,))
     ok(ctx, "clock_shift", close(f.conj().T @ f, np.eye(d), 1e-9), "fourier-unitary", (d,))
     ok(ctx, "clock_shift", close(f, np.array([[w ** (j * k) for k in range(d)] for j in range(d)]) / np.sqrt(d), 1e-9), "fourier-entries", (d,))
     ok(ctx, "clock_shift", close(f @ x @ f.conj().T, z, 1e-9) or close(f.conj().T @ x @ f, z, 1e-9), "fourier-intertwines", (d,))
